@@ -15,7 +15,8 @@ class C05Struct(Scenario):
     def gen_config(self, rng):
         name = rng.choice(sorted(structs.ALL_SUBJECTS))
         cfg = structs.gen_cfg_for(name, rng)
-        cfg.update({"subject": name, "saturate": rng.chance(1, 4), "steps": rng.between(3, self.max_steps),
+        cfg.update({"subject": name, "saturate": rng.chance(1, 4), "negatives": rng.chance(1, 3),
+                    "steps": rng.between(3, self.max_steps),
                     "fault_free": rng.chance(1, 6)})
         return cfg
 
@@ -176,7 +177,8 @@ class C05Cuckoo(CuckooWorld):
     def observe(self, f):
         u = list(range(self.cfg["universe"])) + [1000, 1001, 1002]
         return {
-            "geom": [f.capacity, f.bucket_size, f.max_swaps, f.fingerprint_size, f.expansion_rate, f.auto_expand],
+            "geom": [f.capacity, f.bucket_size, f.max_swaps, f.fingerprint_size, f.fingerprint_size_bits, f.expansion_rate,
+                     f.auto_expand] + ([repr(f.error_rate)] if self.cfg.get("error_rate") else []),
             "count": [f.elements_added] + ([f.unique_elements] if self.counting else []),
             "answers": [int(f.check(seams.key_of(k))) for k in u],
         }
